@@ -103,6 +103,9 @@ func VerifC11Score(n int) {
 //verif:timeout 300
 func VerifC11RequiredZeros(n int) {
 	target := math.Float64frombits(verifU64("target"))
+	if !verifSymbolic() {
+		verifZerosBank(n) // native replay: floating point is uninterpreted in the symbolic run; probe the rounding boundaries
+	}
 	z := requiredTrailingZeros(n, target)
 	verifAssert("zeros.range", z <= consts.HashTrinarySize)
 	if z < consts.HashTrinarySize {
@@ -110,5 +113,30 @@ func VerifC11RequiredZeros(n int) {
 	}
 	if z > 0 && z <= consts.HashTrinarySize {
 		verifAssert("zeros.least", math.Pow(3, float64(z-1))/float64(n) < target)
+	}
+}
+
+// verifZerosBank (replays only): targets at and one to three ulps above every attainable score
+// 3^k/n, plus trivially low, huge and non-finite targets.
+func verifZerosBank(n int) {
+	check := func(t float64) {
+		z := requiredTrailingZeros(n, t)
+		verifAssert("bank.zeros.range", z <= consts.HashTrinarySize)
+		if z < consts.HashTrinarySize {
+			verifAssert("bank.zeros.enough", !(math.Pow(3, float64(z))/float64(n) < t))
+		}
+		if z > 0 && z <= consts.HashTrinarySize {
+			verifAssert("bank.zeros.least", math.Pow(3, float64(z-1))/float64(n) < t)
+		}
+	}
+	for k := 0; k <= 60; k++ {
+		t := math.Pow(3, float64(k)) / float64(n)
+		for u := 0; u < 4; u++ {
+			check(t)
+			t = math.Nextafter(t, math.Inf(1))
+		}
+	}
+	for _, t := range []float64{0, -1, 1e-300, 0.01, 1 / (4 * float64(n)), math.MaxFloat64, math.Inf(1), math.NaN()} {
+		check(t)
 	}
 }
